@@ -30,12 +30,13 @@ func init() {
 
 // Case is one execution.
 type Case struct {
-	Kind    string // sweep | forced | invalid
-	Sc      sims.Scenario
-	Order   []int
-	Invalid string // invalid: which defect
-	Entry   string
-	TS      bool
+	Kind     string // sweep | forced | invalid | cancel
+	CancelAt int    // cancel: request index on whose arrival the context is cancelled (-1: before the call)
+	Sc       sims.Scenario
+	Order    []int
+	Invalid  string // invalid: which defect
+	Entry    string
+	TS       bool
 }
 
 func shapeSig(msgs []string) string {
@@ -236,6 +237,23 @@ func execCase(r *core.Run, c *Case) {
 		r.Count("forced-orders", 1)
 		r.Nontrivial(fmt.Sprintf("forced %v %s", c.Order, c.Sc.Desc()))
 		r.Sample("forced", map[string]any{"scenario": c.Sc.Desc(), "order_asked": c.Order, "order_observed": observed, "result": sims.CanonString(sims.Canon(out.Results))})
+	case "cancel":
+		env := c.Sc.Prepare()
+		ctx, cancel := context.WithCancel(context.Background())
+		if c.CancelAt < 0 {
+			cancel()
+		} else {
+			env.Net.OnRequest = func(n int, _ *netsim.Request) {
+				if n == c.CancelAt {
+					cancel()
+				}
+			}
+		}
+		out := env.Run(ctx)
+		cancel()
+		judgeScenario(r, c, out)
+		r.Count("cancelled", 1)
+		r.Nontrivial(fmt.Sprintf("cancel@%d %s", c.CancelAt, c.Sc.Desc()))
 	default:
 		out := c.Sc.Run()
 		judgeScenario(r, c, out)
@@ -264,6 +282,13 @@ func run(r *core.Run) int {
 	for i := 0; i < n; i++ {
 		l := 1 + rng.IntN(5)
 		cases = append(cases, &Case{Kind: "sweep", Sc: randomScenario(rng, l)})
+	}
+	// the same invariants on what a cancelled call returns
+	for i, nc := 0, r.Pick(3000, 40000); i < nc; i++ {
+		l := 2 + rng.IntN(4)
+		sc := randomScenario(rng, l)
+		sc.Entry = "validate"
+		cases = append(cases, &Case{Kind: "cancel", Sc: sc, CancelAt: rng.IntN(7) - 1})
 	}
 	for _, k := range invalidKinds {
 		for _, ts := range []bool{false, true} {
@@ -303,7 +328,8 @@ func run(r *core.Run) int {
 	return r.Finish(r.Pick(1500, 30000),
 		core.Require{Counter: "valid-chain-results", Why: "no result slice was judged"},
 		core.Require{Counter: "invalid-chain-errors", Why: "no invalid chain was judged"},
-		core.Require{Counter: "forced-orders", Why: "no forced completion order"})
+		core.Require{Counter: "forced-orders", Why: "no forced completion order"},
+		core.Require{Counter: "cancelled", Why: "no cancelled call was judged"})
 }
 
 func replay(r *core.Run, path string) int {
